@@ -59,6 +59,10 @@ def run(ctx):
         from rules import c08
         from rules.c09 import Renamed
         c08.r1_r2(Renamed(ctx, "C08.R", "C02.R7-"), facts, cfg)
+        # a stream that spans several nodes is read to its end before the backend stops: prepare_read() follows one link per call, so
+        # 'a pass read nothing' does not mean 'empty' — the exit drain leaves only on the emptiness test (= C07.R1)
+        from rules import c07
+        c07.r1(Renamed(ctx, "C07.R1", "C02.R8"), facts, cfg)
 
 
 def check_r1(ctx, facts, cfg, byname, roles):
